@@ -432,6 +432,14 @@ func c12cases(e vt.Env, yield func(vt.Case) bool) {
 		}
 	}
 
+	// (life) channels after their end: exhausted, closed, closed twice, with successors
+	for _, fr := range frs {
+		fr := fr
+		if !yield(vt.Case{ID: "life/" + fr.name, Run: func(c *vt.Ctx) { c12life(c, fr) }}) {
+			return
+		}
+	}
+
 	// (longline) header lines and split records around the 4096-byte reader buffer
 	for _, fr := range frs {
 		if fr.kind == 'j' {
@@ -665,6 +673,83 @@ func c12bigbody(c *vt.Ctx, e vt.Env, fr c12fr) {
 		}
 	}
 	c.Count("bodies_beyond_4MiB", 1)
+}
+
+// c12life: "once the stream is exhausted it keeps failing", and what one channel does
+// must not reach another: a channel that has delivered its whole stream and has been
+// closed (once, twice) keeps answering Recv with an error and no data, however many
+// channels of the same framing are created and used afterwards; and each of those
+// delivers exactly its own stream.
+func c12life(c *vt.Ctx, fr c12fr) {
+	recsOf := func(k int) [][]byte {
+		if fr.kind == 'j' {
+			return [][]byte{[]byte(fmt.Sprintf(`{"stream":%d}`, k)), []byte(fmt.Sprintf(`[%d,%d]`, k, k)), []byte(fmt.Sprintf(`"s%d"`, k))}
+		}
+		return [][]byte{[]byte(fmt.Sprintf("stream-%d-first", k)), []byte(fmt.Sprintf("stream-%d-second-%s", k, strings.Repeat("x", 40*k))), []byte(fmt.Sprintf("s%d", k))}
+	}
+	encode := func(recs [][]byte) []byte {
+		sink := &c11sinkWC{}
+		ch := fr.f(bytes.NewReader(nil), sink)
+		for _, r := range recs {
+			if err := ch.Send(append([]byte(nil), r...)); err != nil {
+				c.Failf("life %s: Send(%q): %v", fr.name, r, err)
+			}
+		}
+		return sink.buf.Bytes()
+	}
+	readAll := func(what string, ch channel.Channel, want [][]byte) {
+		for i, w := range want {
+			got, err := ch.Recv()
+			if err != nil || !bytes.Equal(got, w) {
+				c.Failf("life %s: %s: Recv #%d returned (%q, %v), want %q", fr.name, what, i, got, err, w)
+				return
+			}
+		}
+	}
+	mustFail := func(what string, ch channel.Channel) {
+		for k := 0; k < 3; k++ {
+			if got, err := ch.Recv(); err == nil || len(got) != 0 {
+				c.Failf("life %s: %s: Recv returned (%q, %v); the stream was exhausted, want an error and no data", fr.name, what, got, err)
+				return
+			}
+		}
+	}
+	defer func() {
+		if p := recover(); p != nil {
+			c.Failf("life %s: panic: %v", fr.name, p)
+		}
+	}()
+	for closes := 0; closes <= 2; closes++ {
+		old := fr.f(&c11cutReader{data: encode(recsOf(1))}, c11nopWC{})
+		readAll("first channel", old, recsOf(1))
+		mustFail("first channel at end of stream", old)
+		for k := 0; k < closes; k++ {
+			old.Close()
+		}
+		var later []channel.Channel
+		for k := 2; k <= 4; k++ {
+			later = append(later, fr.f(&c11cutReader{data: encode(recsOf(k))}, c11nopWC{}))
+		}
+		mustFail(fmt.Sprintf("first channel (closed %d times) after three more channels were created", closes), old)
+		// the successors, interleaved
+		for i := 0; i < 3; i++ {
+			for k, ch := range later {
+				got, err := ch.Recv()
+				if w := recsOf(k + 2)[i]; err != nil || !bytes.Equal(got, w) {
+					c.Failf("life %s: channel %d created after the first was closed %d times: Recv #%d returned (%q, %v), want %q", fr.name, k+2, closes, i, got, err, w)
+					return
+				}
+			}
+			mustFail(fmt.Sprintf("first channel (closed %d times) while its successors are read", closes), old)
+		}
+		for k, ch := range later {
+			mustFail(fmt.Sprintf("channel %d at end of stream", k+2), ch)
+			ch.Close()
+		}
+		c.Eval(4)
+		c.Count("channel_lifecycles_checked", 1)
+	}
+	c.Distinct("life/" + fr.name)
 }
 
 // c12longline: lines longer than the decoder's internal buffer. For header
